@@ -45,7 +45,7 @@ func (d *driver) driveRevisions(ntraces, nops int) {
 				for i, k := 0, 1+rng.Intn(2); i < k; i++ {
 					deps = append(deps, Dep{A: pick(rng, TraceAccounts...), N: int64(1 + rng.Intn(2000))})
 				}
-				d.exchange(Act{Op: "BeginFund", S: 1, Deps: deps, Sf: fl(sfClasses...)}, "", "", pick(rng, "finish", "finish", "finish", "finish", "abort1"))
+				d.exchange(Act{Op: "BeginFund", S: 1, Deps: deps, Sf: fl(sfClasses...), Af: flaw(rng, 3, "ovfLast", "ovfMid", "tooBig")}, "", "", pick(rng, "finish", "finish", "finish", "finish", "abort1"))
 			case x < 36:
 				kind := pick(rng, "accts", "pools")
 				names := TraceAccounts
@@ -56,7 +56,7 @@ func (d *driver) driveRevisions(ntraces, nops int) {
 				for _, i := range rng.Perm(len(names))[:1+rng.Intn(len(names))] {
 					accs = append(accs, names[i])
 				}
-				d.exchange(Act{Op: "BeginRepl", S: 1, Kind: kind, Accs: accs, Target: int64(1 + rng.Intn(5000)), Cf: fl(cfClasses...)}, "Round2Repl", fl(sfClasses...), d.stopPoint())
+				d.exchange(Act{Op: "BeginRepl", S: 1, Kind: kind, Accs: accs, Target: int64(1 + rng.Intn(5000)), Cf: fl(cfClasses...), Af: flaw(rng, 3, "ovfLast", "ovfMid")}, "Round2Repl", fl(sfClasses...), d.stopPoint())
 			case x < 58 && cur < 30:
 				var secs []int
 				for i, k := 0, 1+rng.Intn(3); i < k; i++ {
@@ -288,6 +288,63 @@ func (d *driver) driveConcurrent(ntraces, nops int) {
 		d.e.C.mu.Unlock()
 		if n == 0 && d.shard == 0 {
 			d.res.Sample(map[string]any{"trace": tr.tag, "workers": workers, "attempts": attempts, "commits": commits})
+		}
+	}
+}
+
+// driveOverflow: the "amount overflow" corruption class, exhaustively: every deposit list of length
+// 2..maxLen over {MaxCurrency, MaxCurrency-1, 2^127, 2, 1} (all orders) whose 128-bit sum overflows
+// at the last addition, overflows in the middle but not at the end (the wrapped total is small
+// and payable), or exceeds the renter payout -- sent with the signature over the revision a host
+// with wrapping arithmetic would compute -- and replenish targets near 2^128 over several
+// accounts.  Expected for all: error, no commit, no credit (C08, C15).
+func (d *driver) driveOverflow(maxLen int) {
+	lists := allOverflowLists(maxLen)
+	names := TraceAccounts
+	var tr *tracer
+	inTrace := 0
+	for _, amts := range lists {
+		if tr == nil || tr.bad || inTrace >= 120 {
+			tr = d.newTrace(1000000000, 900000000, nil)
+			inTrace = 0
+		}
+		st := tr.state()
+		class, _ := classifyAmounts(amts, st.Revision.RenterOutput.Value)
+		if class == "small" {
+			d.res.Count("overflow_lists_small_skipped", 1)
+			continue
+		}
+		var deps []Dep
+		var raw []string
+		for i, a := range amts {
+			deps = append(deps, Dep{A: names[i%len(names)], N: 1})
+			raw = append(raw, curBig(a).String())
+		}
+		inTrace++
+		d.res.Count("overflow_lists_"+class, 1)
+		fin := d.exchange(Act{Op: "BeginFund", S: 1, Deps: deps, Sf: "ok", Af: class, Raw: raw}, "", "", "finish")
+		if fin.Reply.K != "rej" {
+			d.res.Mismatch("trace:fund:overflow:"+class, fmt.Sprintf("%s: deposits %v (class %s) were not refused: %v", tr.tag, raw, class, fin.Reply),
+				map[string]any{"kind": "trace", "tag": tr.tag, "history": append([]string(nil), tr.hist...)})
+			tr.bad = true
+		}
+	}
+	for _, kind := range []string{"accts", "pools"} {
+		for _, class := range []string{"ovfLast", "ovfMid"} {
+			if tr == nil || tr.bad {
+				tr = d.newTrace(1000000000, 900000000, nil)
+			}
+			name := "a1"
+			if kind == "pools" {
+				name = "p1"
+			}
+			fin := d.exchange(Act{Op: "BeginRepl", S: 1, Kind: kind, Accs: []string{name}, Target: 1, Cf: "ok", Af: class}, "Round2Repl", "ok", "finish")
+			d.res.Count("overflow_replenish", 1)
+			if fin.Reply.K != "rej" {
+				d.res.Mismatch("trace:repl:overflow:"+class, fmt.Sprintf("%s: replenish %s with an overflowing target (class %s) was not refused: %v", tr.tag, kind, class, fin.Reply),
+					map[string]any{"kind": "trace", "tag": tr.tag, "history": append([]string(nil), tr.hist...)})
+				tr.bad = true
+			}
 		}
 	}
 }
